@@ -12,8 +12,11 @@
 //!     `AxisCollection::location` against exact rationals.
 //! (d) skrifa `GlyphMetrics::advance_width/left_side_bearing` on synthesised fonts with HVAR.
 
+mod gaps;
+mod gaps2;
 mod norm;
 mod norm2;
+mod raw;
 
 use font_types::{F2Dot14, GlyphId};
 use rayon::prelude::*;
@@ -115,9 +118,16 @@ fn nonzero(ds: &DeltaSet) -> BTreeMap<usize, i32> {
 
 struct ReadStore {
     bytes: Vec<u8>,
+    /// the same bytes decoded by the harness' own codec (raw.rs), independent of read-fonts
+    raw: Result<raw::RawStore, String>,
 }
 
 impl ReadStore {
+    fn new(bytes: Vec<u8>) -> Self {
+        let raw = raw::decode_store(&bytes);
+        ReadStore { bytes, raw }
+    }
+
     /// expand row (outer, inner): region id (index into REGIONS) -> delta, zeros dropped
     fn row(&self, outer: u16, inner: u16) -> Result<BTreeMap<usize, i32>, String> {
         let by_spec = self.row_by_spec(outer, inner)?;
@@ -147,10 +157,25 @@ impl ReadStore {
         if deltas.len() != idx.len() {
             return Err(format!("row has {} deltas for {} columns", deltas.len(), idx.len()));
         }
+        // the same row in the harness' own decoding of the bytes (raw.rs), compared column by column
+        let raw = self.raw.as_ref().map_err(|e| format!("raw: store bytes do not decode per the specification: {e}"))?;
+        let rd = raw.subtables.get(outer as usize).and_then(|s| s.as_ref()).ok_or_else(|| format!("raw: sub-table {outer} is NULL or past the list in the bytes decoded per the specification"))?;
+        let rrow = rd.rows.get(inner as usize).ok_or_else(|| format!("raw: inner index {inner} >= item count {} in the bytes decoded per the specification", rd.rows.len()))?;
+        if rrow.len() != deltas.len() || rd.region_indexes.len() != idx.len() {
+            return Err(format!("raw: read-fonts sees {} columns, the bytes decoded per the specification have {}", deltas.len(), rrow.len()));
+        }
         for (col, delta) in deltas.iter().enumerate() {
             let ri = idx[col].get() as usize;
             let reg = regions.get(ri).map_err(|e| format!("region {ri}: {e}"))?;
             let spec: Vec<(i16, i16, i16)> = reg.region_axes().iter().map(|a| (a.start_coord().to_bits(), a.peak_coord().to_bits(), a.end_coord().to_bits())).collect();
+            if rd.region_indexes[col] as usize != ri || raw.regions.get(ri) != Some(&spec) || rrow[col] != *delta {
+                return Err(format!(
+                    "raw: ({outer}, {inner}) column {col}: read-fonts gives region #{ri} {spec:?} delta {delta}; the bytes decoded per the specification give region #{} {:?} delta {}",
+                    rd.region_indexes[col],
+                    raw.regions.get(rd.region_indexes[col] as usize),
+                    rrow[col]
+                ));
+            }
             if *delta != 0 {
                 if out.insert(spec.clone(), *delta).is_some() {
                     return Err(format!("region {spec:?} appears in two columns of sub-table {outer}"));
@@ -163,16 +188,25 @@ impl ReadStore {
 
 /// build a store from the sequence, resolve every id, compare. Err = (identity, details)
 fn check_store(seq: &[DeltaSet], implicit: bool) -> Result<(u64, bool), (String, String)> {
+    check_store_o(seq, implicit, false)
+}
+
+fn check_store_o(seq: &[DeltaSet], implicit: bool, rev_all: bool) -> Result<(u64, bool), (String, String)> {
     let mode = if implicit { "implicit indices" } else { "de-duplicating" };
     let mut b = if implicit { VariationStoreBuilder::new_with_implicit_indices(2) } else { VariationStoreBuilder::new(2) };
     let mut ids = vec![];
-    for ds in seq {
-        let v: Vec<(VariationRegion, i32)> = ds.iter().enumerate().filter_map(|(i, d)| d.map(|d| (wregion(&REGIONS[i]), d))).collect();
+    for (k, ds) in seq.iter().enumerate() {
+        let mut v: Vec<(VariationRegion, i32)> = ds.iter().enumerate().filter_map(|(i, d)| d.map(|d| (wregion(&REGIONS[i]), d))).collect();
+        // the order of the (region, delta) pairs inside one call carries no meaning: every second set
+        // (or every set, `rev_all`) is handed over in descending region order
+        if k % 2 == 1 || rev_all {
+            v.reverse();
+        }
         ids.push(b.add_deltas(v));
     }
     let (store, remap) = b.build();
     let bytes = dump_table(&store).map_err(|e| (format!("VariationStoreBuilder ({mode}): built store does not compile"), format!("{e:?}")))?;
-    let rs = ReadStore { bytes };
+    let rs = ReadStore::new(bytes);
     let mut any_nonzero = false;
     for (i, ds) in seq.iter().enumerate() {
         let expect = nonzero(ds);
@@ -188,6 +222,12 @@ fn check_store(seq: &[DeltaSet], implicit: bool) -> Result<(u64, bool), (String,
                         format!("input #{i} {:?} -> ({}, {}) expands to {:?}", ds, vi.delta_set_outer_index, vi.delta_set_inner_index, got),
                     ));
                 }
+            }
+            Err(e) if e.starts_with("raw:") => {
+                return Err((
+                    format!("VariationStoreBuilder ({mode}): the compiled bytes decoded per the specification disagree with read-fonts or do not hold the row"),
+                    format!("input #{i} {:?} -> ({}, {}): {e}", ds, vi.delta_set_outer_index, vi.delta_set_inner_index),
+                ))
             }
             Err(e) => {
                 return Err((
@@ -495,7 +535,7 @@ fn check_wide(width: usize, rows: usize, implicit: bool) -> Result<Option<u64>, 
         Ok(b) => b,
         Err(_) => return Ok(None),
     };
-    let rs = ReadStore { bytes };
+    let rs = ReadStore::new(bytes);
     for r in 0..rows {
         let expect: BTreeMap<Vec<(i16, i16, i16)>, i32> = (0..width).map(|k| (wide_region(k), delta_of(r, k))).collect();
         let Some(vi) = remap.get(ids[r]) else {
@@ -868,10 +908,13 @@ fn body(run: &Run, replay: Option<&Value>) {
     builder_families(run);
     builder_more_regions(run);
     builder_limits(run);
+    gaps::builder_extra(run);
+    gaps::builder_uniform(run);
     eprintln!("[c11] (a) done at {:.1}s", run.elapsed());
     compute_delta_family(run);
     compute_delta_bounded(run);
     compute_delta_degenerate(run);
+    gaps::raw_store_family(run);
     eprintln!("[c11] (b) done at {:.1}s", run.elapsed());
     norm::normalisation(run);
     eprintln!("[c11] (c) done at {:.1}s", run.elapsed());
@@ -883,6 +926,15 @@ fn body(run: &Run, replay: Option<&Value>) {
     norm2::mvar_metrics(run);
     norm2::index_map_family(run);
     norm2::metric_var_tables(run);
+    gaps::index_map_extra(run);
+    gaps::normalized_contract(run);
+    gaps::avar2_variants(run);
+    gaps::skrifa_routes(run);
+    gaps::metrics_scaled(run);
+    gaps::mvar_search(run);
+    gaps2::identity_axis(run);
+    gaps2::segment_maps5(run);
+    gaps2::gvar_intermediate(run);
     eprintln!("[c11] (d) done at {:.1}s", run.elapsed());
 }
 
@@ -953,6 +1005,8 @@ fn replay_case(run: &Run, case: &Value) {
                 run.violation("ItemVariationStore::compute_delta differs from the exact tent sum", "replayed", case.clone());
             }
         }
+        "builder_o" | "builder_uniform" | "raw_store" | "index_map_tail" | "norm_contract" | "norm_contract_same_tag" | "norm_avar2_variant" | "norm_avar2_many_axes" | "skrifa_filter" | "skrifa_instance" | "skrifa_no_fvar" | "metrics_scaled" | "mvar_subset" | "mvar_skrifa" => gaps::replay(run, case),
+        "identity_axis" | "metrics_gvar_intermediate" => gaps2::replay(run, case),
         "metrics_gvar" | "norm_two_axes" | "metrics_mvar" | "index_map" | "axis_normalize" | "metric_var_table" | "norm_avar2_extremes" | "norm_avar2_fixture" => norm2::replay(run, case),
         k if k.starts_with("norm") || k.starts_with("metrics") || k.starts_with("segment") || k.starts_with("location") => norm::replay(run, case),
         k => println!("replay: unknown kind {k}"),
